@@ -345,6 +345,13 @@ def c03(tier):
         rnd.shuffle(cases2)
         cases2 = cases2[:20000]
     run_cases(binary, cases2, v, {"C03"}, "layout", relabel=relabel)
+    # statements that already carry a `ref` key-value among other key-values (shorthand keys, modifiers, strings)
+    cases3 = tlc_cases(v, "intended/StmtKv.cfg")
+    if tier != "thorough":
+        rnd = random.Random(common.seed() + 3)
+        rnd.shuffle(cases3)
+        cases3 = cases3[:15000]
+    run_cases(binary, cases3, v, {"C03"}, "kv", relabel=relabel)
     # malformed text
     hostile_step(binary, v, {"C03"}, "intended/HostileQ.cfg")
     # real code
@@ -427,8 +434,8 @@ def c17(tier):
             rl.planned_runs(binary, sc, [[("check", ""), ("edit", ""), ("check", "")]], batch, v)
         sc = rl.Scenario("empty-files", {"f1.rs": [], "f2.rs": []}, structured=structured)
         rl.planned_runs(binary, sc, [[("check", ""), ("edit", "")]], batch, v)
-        for n in ((2000, 20000) if tier == "thorough" else (2000,)):
-            sc = rl.Scenario("large-%d" % n, {"big.rs": [S(10000 + i) for i in range(n)]}, structured=structured, pad=2000000 if n > 2000 else 300000)
+        for n in ((2000, 10000) if tier == "thorough" else (2000,)):
+            sc = rl.Scenario("large-%d" % n, {"big.rs": [S(10000 + i) for i in range(n)]}, structured=structured, pad=1500000 if n > 2000 else 300000)
             rl.planned_runs(binary, sc, [[("check", ""), ("edit", "")]], batch, v)
     batch.judge(v, {"C17"})
     v.cov["rule"] = ("Hostile.tla: every sequence of <= N tokens over a 32-token alphabet of tool-breaking fragments x {trailing newline, none} "
